@@ -1,18 +1,59 @@
 """Numeric tables for the specifications, generated from the Python standard
 library only (statistics.NormalDist, math) - an implementation independent of
-SciPy, which is what the code under test uses."""
+SciPy, which is what the code under test uses.
+
+  z6[a]        round(1e6 * Phi^-1(1 - a/2000))  for a = alpha in permille
+  se6[n2][k2]  round(1e6 * sqrt(p (1-p) / n)),  p = k2/n2, n = n2/2 (half-unit counts)
+  phi6[i]      round(1e6 * Phi(-6 + i/1000))    i = 0..12000
+  ppf6[n][k]   round(1e6 * Phi^-1(k/n))         1 <= k < n <= NMAX_PPF
+  root6[a][n]  round(1e6 * (a/1000)^(1/n))      (rule of three)
+  sqrt6[m]     round(1e6 * sqrt(m))             m = 0..SQRT_MAX
+"""
 import json
 import math
 import sys
 from statistics import NormalDist
 
 ND = NormalDist()
-SCALE = 10**6
+S = 10**6
+ALPHAS = [10, 20, 50, 100, 200, 500, 900]      # permille
+N2MAX = 64
+NMAX_PPF = 16
+ROOT_NMAX = 40
+SQRT_MAX = 400
+
+
+def build():
+    t = {"scale": S}
+    t["z6"] = {str(a): round(S * ND.inv_cdf(1 - a / 2000.0)) for a in ALPHAS}
+    t["zl6"] = {str(a): round(S * ND.inv_cdf(a / 2000.0)) for a in ALPHAS}
+    se = []
+    for n2 in range(0, N2MAX + 1):
+        row = []
+        for k2 in range(0, N2MAX + 1):
+            if n2 == 0 or k2 > n2:
+                row.append(0)
+            else:
+                p = k2 / n2
+                row.append(round(S * math.sqrt(p * (1 - p) / (n2 / 2.0))))
+        se.append(row)
+    t["se6"] = se
+    t["phi6"] = [round(S * ND.cdf(-6 + i / 1000.0)) for i in range(0, 12001)]
+    ppf = []
+    for n in range(0, NMAX_PPF + 1):
+        row = []
+        for k in range(0, NMAX_PPF + 1):
+            row.append(round(S * ND.inv_cdf(k / n)) if 0 < k < n else 0)
+        ppf.append(row)
+    t["ppf6"] = ppf
+    t["root6"] = {str(a): [0] + [round(S * math.pow(a / 1000.0, 1.0 / n)) for n in range(1, ROOT_NMAX + 1)]
+                  for a in ALPHAS}
+    t["sqrt6"] = [round(S * math.sqrt(m)) for m in range(0, SQRT_MAX + 1)]
+    return t
 
 
 def main(path):
-    t = {"scale": SCALE}
-    json.dump(t, open(path, "w"))
+    json.dump(build(), open(path, "w"))
 
 
 if __name__ == "__main__":
